@@ -33,6 +33,22 @@ class Model:
     """Base class of checker-side model objects: attribute access and calls on them are delegated to Python."""
 
 
+
+def _split_starred(elts, vals, where=None):
+    """pairs (target, value) for an unpacking assignment with at most one starred target (python semantics); None if the counts do not fit"""
+    star = [i for i, e in enumerate(elts) if isinstance(e, ast.Starred)]
+    if not star:
+        return list(zip(elts, vals)) if len(vals) == len(elts) else None
+    if len(star) > 1:
+        return None
+    i = star[0]
+    after = len(elts) - i - 1
+    if len(vals) < len(elts) - 1:
+        return None
+    mid = list(vals[i:len(vals) - after])
+    return list(zip(elts[:i], vals[:i])) + [(elts[i].value, mid)] + list(zip(elts[i + 1:], vals[len(vals) - after:]))
+
+
 class ReturnValue(Exception):
     def __init__(self, value):
         self.value = value
@@ -224,6 +240,11 @@ class Evaluator:
     def ev_IfExp(self, node):
         return self.ev(node.body) if self.truth(self.ev(node.test), node.test) else self.ev(node.orelse)
 
+    def ev_NamedExpr(self, node):
+        v = self.ev(node.value)
+        self.assign(node.target, v)
+        return v
+
     def ev_Tuple(self, node):
         return tuple(self.ev_seq(node.elts))
 
@@ -291,9 +312,10 @@ class Evaluator:
             self.env[target.id] = value
         elif isinstance(target, (ast.Tuple, ast.List)):
             vals = list(value)
-            if len(vals) != len(target.elts):
+            pairs = _split_starred(target.elts, vals)
+            if pairs is None:
                 raise Unsupported("cannot unpack")
-            for t, v in zip(target.elts, vals):
+            for t, v in pairs:
                 self.bind(t, v)
         else:
             raise Unsupported("binding target %s" % ast.unparse(target))
